@@ -35,6 +35,27 @@ def boundary_cases():
     big_enum = {"type": "enum", "name": "BigE", "symbols": ["S%d" % i for i in range(130)]}
     for i in (0, 63, 64, 127, 128, 129):
         out.append((big_enum, ["S%d" % i], {}, False))
+    # equal values of different Python types side by side in one container of unions (1 == True == 1.0 are one dict key)
+    for branches in (["boolean", "int"], ["int", "boolean"], ["long", "double"], ["double", "long"], ["boolean", "double"],
+                     ["null", "float", "int"], ["boolean", "long", "double"], ["string", "int", "boolean"]):
+        pool = []
+        if "boolean" in branches:
+            pool += [True, False]
+        if "int" in branches or "long" in branches:
+            pool += [1, 0, 2]
+        if "float" in branches or "double" in branches:
+            pool += [1.0, 0.0, 2.0]
+        if "null" in branches:
+            pool += [None]
+        if "string" in branches:
+            pool += ["1"]
+        orders = [pool, pool[::-1], pool[1::2] + pool[::2]]
+        for xs in orders:
+            out.append(({"type": "array", "items": branches}, [list(xs)], {}, False))
+            out.append(({"type": "map", "values": branches}, [{"k%d" % i: x for i, x in enumerate(xs)}], {}, False))
+            out.append(({"type": "record", "name": "EqMix", "fields": [{"name": "a", "type": {"type": "array", "items": branches}},
+                                                                        {"name": "u", "type": branches}]},
+                        [{"a": list(xs), "u": xs[0]}], {}, False))
     for x in gen.F64_POOL:
         out.append(("double", [x], {}, False))
     for x in gen.F32_EXACT:
